@@ -625,7 +625,9 @@ pub fn run_hist(cfg: &RunCfg, mut src: StepSrc, opts: &HistOpts) -> RunResult {
                 break;
             }
             // a failure of another property's oracle: abandon if the model may have diverged
-            if let Some(f) = cx.fails.iter().find(|f| f.props & (C03 | C12 | C04) != 0) {
+            // (a broken index table alone does not abandon the run: what it does to behaviour is
+            // for the behavioural oracles of the following steps to say)
+            if let Some(f) = cx.fails.iter().find(|f| f.props & (C03 | C12) != 0 || (f.props & C04 != 0 && !f.class.starts_with("tables"))) {
                 res.end = RunEnd::Abandoned { step: i, why: format!("{} [{}] {}", mask_names(f.props), f.class, f.msg) };
                 break;
             }
